@@ -117,6 +117,18 @@ def measure(job):
         coord = pts.copy()
         A3 = dense_fn(lambda x: sp.nufft(x, coord, oversamp=os_, width=w), shape, [npts])
         out.append((cls_name(os_, w), np.linalg.norm(A3 - F) / nF, "fro, repeated after other oversampling ratios"))
+    # image and coordinates in other memory layouts (Fortran order, strided views): same transform, arguments untouched
+    coord = pts.copy()
+    xl = rs.randn(*shape) + 1j * rs.randn(*shape)
+    y_ref = sp.nufft(xl, coord)
+    z_ref = sp.nufft_adjoint(y_ref, coord, oshape=shape)
+    for (lab, xv), (_, cv) in zip(core.layouts(xl) or [("C", xl)] * 2, core.layouts(coord) or [("C", coord)] * 2):
+        xv0, cv0 = xv.copy(), cv.copy()
+        yv = sp.nufft(xv, cv)
+        zv = sp.nufft_adjoint(np.asfortranarray(y_ref) if lab.startswith("F") else y_ref, cv, oshape=shape)
+        out.append(("batch_exact", float(np.linalg.norm(yv - y_ref) / max(np.linalg.norm(y_ref), 1e-300) + np.linalg.norm(zv - z_ref) / max(np.linalg.norm(z_ref), 1e-300)), "nufft / nufft_adjoint with %s arguments vs C order" % lab))
+        if not (np.array_equal(xv, xv0) and np.array_equal(cv, cv0)):
+            out.append(("purity", 1.0, "nufft / nufft_adjoint modified a %s argument" % lab))
     # batch axis, complex64 precision, real input, operator-level checks at the defaults
     coord = pts.copy()
     xb = rs.randn(2, *shape) + 1j * rs.randn(2, *shape)
